@@ -569,6 +569,54 @@ func callOrder(f *ast.File, fn string, interesting []string) []string {
 	return toks
 }
 
+// guardsOf returns, for every call of callee in fn, the source text of the conditions of the if statements that
+// enclose it (outermost first, joined by " && "); "" for an unguarded call.
+func guardsOf(fset *token.FileSet, src []byte, f *ast.File, fn, callee string) []string {
+	var out []string
+	for _, d := range f.Decls {
+		fd, ok := d.(*ast.FuncDecl)
+		if !ok || fd.Body == nil || fd.Name.Name != fn {
+			continue
+		}
+		var stack []string
+		var walk func(n ast.Node)
+		walk = func(n ast.Node) {
+			if n == nil {
+				return
+			}
+			switch x := n.(type) {
+			case *ast.IfStmt:
+				if x.Init != nil {
+					walk(x.Init)
+				}
+				cond := string(src[fset.Position(x.Cond.Pos()).Offset:fset.Position(x.Cond.End()).Offset])
+				stack = append(stack, cond)
+				walk(x.Body)
+				stack = stack[:len(stack)-1]
+				if x.Else != nil {
+					stack = append(stack, "!("+cond+")")
+					walk(x.Else)
+					stack = stack[:len(stack)-1]
+				}
+				return
+			case *ast.CallExpr:
+				if ch := selChain(x.Fun); ch == callee || strings.HasSuffix(ch, "."+callee) {
+					out = append(out, strings.Join(stack, " && "))
+				}
+			}
+			ast.Inspect(n, func(c ast.Node) bool {
+				if c == n || c == nil {
+					return true
+				}
+				walk(c)
+				return false
+			})
+		}
+		walk(fd.Body)
+	}
+	return out
+}
+
 func main() {
 	repo := flag.String("repo", "/repo", "repository root")
 	out := flag.String("out", "", "output .v file")
@@ -705,6 +753,23 @@ func main() {
 		w("  (\"%s\", [%s])%s\n", c.fn, strings.Join(q, "; "), sep)
 	}
 	w("].\n")
+
+	// ---- how a retained message is replaced: which conditions guard the removal in provider.retain
+	for _, tr := range []struct{ pfx, file string }{{"lf", "topics/memlockfree/topics.go"}, {"mem", "topics/mem/topics.go"}} {
+		path := filepath.Join(*repo, tr.file)
+		src, _ := ioutil.ReadFile(path)
+		fset := token.NewFileSet()
+		f, err := parser.ParseFile(fset, path, src, 0)
+		gs := []string{}
+		if err == nil {
+			gs = guardsOf(fset, src, f, "retain", "retainRemove")
+		}
+		q := make([]string, len(gs))
+		for i, g := range gs {
+			q[i] = "\"" + strings.ReplaceAll(strings.Join(strings.Fields(g), " "), "\"", "\"\"") + "\""
+		}
+		w("\nDefinition %s_retain_remove_guards : list string := [%s].\n", tr.pfx, strings.Join(q, "; "))
+	}
 
 	// ---- order of the accesses of an outbound acknowledgement and of the writer's pop
 	w("\nDefinition ack_shape : list (string * list string) := [\n")
